@@ -14,8 +14,10 @@ import (
 	"bytes"
 	"flag"
 	"fmt"
+	"io"
 	"log"
 	"os"
+	osexec "os/exec"
 	"path/filepath"
 	"regexp"
 	"runtime/debug"
@@ -63,9 +65,32 @@ type Obs struct {
 	Errs  []Err    `json:"errs,omitempty"`
 	Exec  []string `json:"exec"`
 	Crash string   `json:"crash,omitempty"`
+	// A second Build call with the same targets on the SAME Builder (what a
+	// loader table, tracer or memo kept across calls would disturb).
+	// After a fatal crash the case is run once more in a probe process that
+	// streams the log and keeps the runtime's traceback: CrashIn says in which
+	// part of caco3 the goroutine stack ran away ("build" = inside
+	// Builder.buildNode, which Build only reaches after loadNodes returned
+	// WITHOUT an error; "load" = inside the loader; "" = not determined), and
+	// Exec then holds the rules executed before the crash.
+	CrashIn string `json:"crash_in,omitempty"`
+	Again   bool   `json:"again,omitempty"`
+	Errs2 []Err    `json:"errs2,omitempty"`
+	Exec2 []string `json:"exec2,omitempty"`
+	// the further calls of Case.Seq on the same Builder
+	More []CallObs `json:"more,omitempty"`
+	// after a crash: the number of the call that crashed (0 = Targets, 1 =
+	// Targets again, 2+k = Seq[k])
+	CrashCall int `json:"crash_call,omitempty"`
 	// Source tree as found on disk before the build (relative to src/).
 	TreeFiles []string `json:"tree_files"`
 	TreeDirs  []string `json:"tree_dirs"`
+}
+
+// CallObs is what one further Build call of a sequence returned.
+type CallObs struct {
+	Errs []Err    `json:"errs,omitempty"`
+	Exec []string `json:"exec"`
 }
 
 type Case struct {
@@ -78,6 +103,9 @@ type Case struct {
 	Targets []string `json:"targets"`
 	Loose   bool     `json:"loose,omitempty"` // compare the verdict only (parse errors)
 	Always  bool     `json:"always,omitempty"` // Config.AlwaysRebuild: the cache never short-cuts
+	// Seq: further target lists, built one after the other on the SAME
+	// Builder after Targets (and Targets again).
+	Seq [][]string `json:"seq,omitempty"`
 	Obs     *Obs     `json:"obs,omitempty"`
 }
 
@@ -236,6 +264,61 @@ func classify(msg, srcDir string) Err {
 
 var scratch string
 
+// probing: this process runs one case for probe().
+var probing bool
+
+// probe re-runs case i in a child of its own with the log streamed to the
+// child's stdout (so that "BUILD" lines written before a fatal crash are seen,
+// and a "CALL k" marker before every Build call) and returns the number of the
+// call that crashed, the rules it had executed, and where the traceback says
+// the goroutine stack ran away.
+func probe(childArgs []string, i int, mem uint64) (call int, exec []string, where string) {
+	args := append(append([]string{}, childArgs...), "-probe", strconv.Itoa(i), "-mem", strconv.FormatUint(mem, 10))
+	cmd := osexec.Command(os.Args[0], args...)
+	var out, errb bytes.Buffer
+	cmd.Stdout = &out
+	cmd.Stderr = &errb
+	done := make(chan error, 1)
+	if err := cmd.Start(); err != nil {
+		return 0, []string{}, ""
+	}
+	go func() { done <- cmd.Wait() }()
+	select {
+	case <-done:
+	case <-time.After(90 * time.Second):
+		cmd.Process.Kill()
+		<-done
+	}
+	exec = []string{}
+	for _, line := range strings.Split(out.String(), "\n") {
+		if strings.HasPrefix(line, "CALL ") {
+			call, _ = strconv.Atoi(strings.TrimPrefix(line, "CALL "))
+			exec = []string{}
+		}
+		if strings.HasPrefix(line, "BUILD ") {
+			exec = append(exec, strings.TrimPrefix(line, "BUILD "))
+		}
+	}
+	tb := errb.String()
+	switch {
+	case strings.Contains(tb, "caco3.(*Builder).buildNode"):
+		where = "build"
+	case strings.Contains(tb, "caco3.(*loader)."):
+		where = "load"
+	}
+	return call, exec, where
+}
+
+func buildLines(text string) []string {
+	ex := []string{}
+	for _, line := range strings.Split(text, "\n") {
+		if strings.HasPrefix(line, "BUILD ") {
+			ex = append(ex, strings.TrimPrefix(line, "BUILD "))
+		}
+	}
+	return ex
+}
+
 func runCase(c *Case, timeout time.Duration) {
 	o := &Obs{Exec: []string{}}
 	c.Obs = o
@@ -254,33 +337,63 @@ func runCase(c *Case, timeout time.Duration) {
 
 	var buf bytes.Buffer
 	log.SetOutput(&buf)
+	if probing {
+		// stream the log as it is written: a fatal crash loses the buffer
+		log.SetOutput(io.MultiWriter(&buf, probeLog{}))
+	}
 	log.SetFlags(0)
 
-	type result struct {
+	// the calls on ONE Builder: the case's targets, the same again, then
+	// every further target list of the sequence
+	calls := [][]string{c.Targets, c.Targets}
+	calls = append(calls, c.Seq...)
+	type callRes struct {
 		errs []Err
+		exec []string
+	}
+	type result struct {
+		early []Err // the Builder could not be made
+		calls []callRes
 	}
 	done := make(chan result, 1)
 	go func() {
 		var r result
 		b, err := caco3.NewBuilder(root, &caco3.Config{Root: root, AlwaysRebuild: c.Always})
 		if err != nil {
-			r.errs = []Err{{K: "other", N: "new builder: " + err.Error()}}
+			r.early = []Err{{K: "other", N: "new builder: " + err.Error()}}
 			done <- r
 			return
 		}
 		if _, errs := b.ReadWorkspace(); errs != nil {
-			r.errs = []Err{{K: "other", N: "workspace: " + errs[0].Error()}}
+			r.early = []Err{{K: "other", N: "workspace: " + errs[0].Error()}}
 			done <- r
 			return
 		}
-		for _, e := range b.Build(c.Targets) {
-			r.errs = append(r.errs, classify(e.Err.Error(), srcDir))
+		for k, ts := range calls {
+			if probing {
+				fmt.Fprintf(os.Stdout, "CALL %d\n", k)
+			}
+			buf.Reset()
+			var cr callRes
+			for _, e := range b.Build(ts) {
+				cr.errs = append(cr.errs, classify(e.Err.Error(), srcDir))
+			}
+			cr.exec = buildLines(buf.String())
+			r.calls = append(r.calls, cr)
 		}
 		done <- r
 	}()
 	select {
 	case r := <-done:
-		o.Errs = r.errs
+		if r.early != nil {
+			o.Errs = r.early
+			break
+		}
+		o.Errs, o.Exec = r.calls[0].errs, r.calls[0].exec
+		o.Again, o.Errs2, o.Exec2 = true, r.calls[1].errs, r.calls[1].exec
+		for _, cr := range r.calls[2:] {
+			o.More = append(o.More, CallObs{Errs: cr.errs, Exec: cr.exec})
+		}
 	case <-time.After(timeout):
 		// The build goroutine cannot be stopped; report and let the parent
 		// restart after this case.
@@ -289,11 +402,16 @@ func runCase(c *Case, timeout time.Duration) {
 		os.Exit(3)
 	}
 	log.SetOutput(os.Stderr)
-	for _, line := range strings.Split(buf.String(), "\n") {
-		if strings.HasPrefix(line, "BUILD ") {
-			o.Exec = append(o.Exec, strings.TrimPrefix(line, "BUILD "))
-		}
+}
+
+// probeLog passes "BUILD" log lines to stdout at once.
+type probeLog struct{}
+
+func (probeLog) Write(p []byte) (int, error) {
+	if bytes.HasPrefix(p, []byte("BUILD ")) {
+		os.Stdout.Write(p)
 	}
+	return len(p), nil
 }
 
 func main() {
@@ -306,6 +424,7 @@ func main() {
 	shards := flag.Int("shards", 1, "number of shards")
 	scr := flag.String("scratch", "", "scratch directory for generated workspaces")
 	list := flag.Bool("list", false, "print the cases without running them")
+	probeCase := flag.Int("probe", -1, "run this one case with the log streamed to stdout (after a crash)")
 	flag.Parse()
 
 	scratch = *scr
@@ -338,6 +457,16 @@ func main() {
 		}
 		return
 	}
+	if *probeCase >= 0 {
+		if *probeCase >= len(cs) {
+			os.Exit(2)
+		}
+		hx.LimitMemory(*mem)
+		debug.SetMaxStack(8 << 20)
+		probing = true
+		runCase(&cs[*probeCase], 60*time.Second)
+		return
+	}
 	if *child {
 		hx.LimitMemory(*mem)
 		// A runaway recursion is cut at 8 MB of goroutine stack instead of
@@ -351,11 +480,16 @@ func main() {
 	}
 	args := []string{"-seed", strconv.FormatUint(*seed, 10), "-tier", *tier,
 		"-shard", strconv.Itoa(*shard), "-shards", strconv.Itoa(*shards), "-scratch", scratch}
+	probes := 0
 	err := hx.RunIsolated(len(cs), args, *mem,
 		func(i int, raw []byte) { os.Stdout.Write(append(raw, '\n')) },
 		func(i int, why string) {
 			c := cs[i]
 			c.Obs = &Obs{Exec: []string{}, Crash: "fatal: " + why}
+			if probes < 30 { // (each probe is a process and a stack overflow)
+				probes++
+				c.Obs.CrashCall, c.Obs.Exec, c.Obs.CrashIn = probe(args, i, *mem)
+			}
 			out.Emit(&c)
 		})
 	os.RemoveAll(scratch) // also the leftovers of crashed children
